@@ -11,6 +11,7 @@ import (
 	"crypto/elliptic"
 	"crypto/rand"
 	"crypto/rsa"
+	"crypto/sha1"
 	"crypto/x509"
 	"crypto/x509/pkix"
 	"embed"
@@ -130,6 +131,9 @@ type CertSpec struct {
 	// the order of the extensions inside the certificate: "" (as crypto/x509 writes them), "reversed", "rotated" (the last
 	// one first), "eku-first", "ku-first", "bc-first"
 	ExtOrder string
+	// key identifiers: "aki-differs" (an authority key identifier that is neither the issuer's nor the certificate's own subject
+	// key identifier), "aki-absent", "ski-absent", "aki-equals-own-ski" — unverified hints, nothing in the specification reads them
+	KeyIDs string
 }
 
 type Issued struct {
@@ -288,6 +292,29 @@ func issue(spec *CertSpec, parent *Issued) (*Issued, error) {
 		tmpl.ExtraExtensions = append(tmpl.ExtraExtensions, pkix.Extension{Id: oidFreshestCRL, Value: v})
 	}
 	tmpl.ExtraExtensions = append(tmpl.ExtraExtensions, spec.ExtraExt...)
+	if spec.KeyIDs != "" {
+		own := sha1.Sum(mustPKIX(key.Priv.Public()))
+		tmpl.SubjectKeyId = own[:]
+		akiExt := func(id []byte) pkix.Extension {
+			v, err := asn1.Marshal(struct {
+				ID []byte `asn1:"optional,tag:0"`
+			}{id})
+			if err != nil {
+				panic(err)
+			}
+			return pkix.Extension{Id: asn1.ObjectIdentifier{2, 5, 29, 35}, Value: v}
+		}
+		switch spec.KeyIDs {
+		case "aki-differs":
+			tmpl.ExtraExtensions = append(tmpl.ExtraExtensions, akiExt([]byte("another key identifier")))
+		case "aki-equals-own-ski":
+			tmpl.ExtraExtensions = append(tmpl.ExtraExtensions, akiExt(own[:]))
+		case "aki-absent":
+			// handled after creation: crypto/x509 always copies the parent's identifier
+		case "ski-absent":
+			tmpl.SubjectKeyId = nil
+		}
+	}
 
 	var parentCert *x509.Certificate
 	var signer crypto.Signer
@@ -351,6 +378,14 @@ func issue(spec *CertSpec, parent *Issued) (*Issued, error) {
 		return nil, err
 	}
 	return &Issued{Spec: spec, Cert: c, Key: key}, nil
+}
+
+func mustPKIX(pub any) []byte {
+	b, err := x509.MarshalPKIXPublicKey(pub)
+	if err != nil {
+		panic(err)
+	}
+	return b
 }
 
 // reorderExtensions rewrites the certificate with its extensions in another order and signs it again with the same
